@@ -225,6 +225,19 @@ def run_case(case, ctx):
     _try(lambda: wide.deepcopy())
     _try(lambda: Fxp(3, s, 16, 0).like(wide))
     _try(lambda: Fxp(inr[0], s, n, nf, raw=True).like(Fxp(None, s, 32, 0)))
+    # a new object built like a wide template whose own overflow / underflow flags are raised: its flags are those of its own store
+    ref = _try(lambda: Fxp(hi + 5, s, n, nf, raw=True, overflow=o))
+    if ref is not None:
+        _try(lambda: ref.set_val(lo - 7, raw=True))
+        _try(lambda: Fxp(inr[0], like=ref, raw=True))
+        _try(lambda: Fxp([inr[1], inr[2]], like=ref, raw=True))
+    # the indicator does not depend on the configured maximum for inferred words
+    for nwm, ww in ((128, 60), (128, 64), (128, 100), (32, 40), (32, 63), (32, 64), (256, n)):
+        tm = _try(lambda: Fxp(3, s, ww, 0, n_word_max=nwm))
+        if tm is not None:
+            _try(lambda: tm.resize(s, 64 if ww < 64 else 63, 0))
+            _try(lambda: tm.reset())
+            _try(lambda: tm.resize(s, ww, 0))
     # extended_prec indicator across the boundary, both directions
     t = Fxp(3, s, 60, 0)
     _try(lambda: t.resize(s, n, 0))
